@@ -62,6 +62,12 @@ void env_advance__pFI_l (struct FwdIt *it, long n);
 Elem *env_copy__FI_FI_pE (struct FwdIt first, struct FwdIt last, Elem *d);
 void env_op_call__pG_out (struct Gen *g, Elem *out);
 
+/* byte copies of trivially copyable elements (C13) */
+void *env_memcpy__pv_pcv_ul (void *dst, const void *src, unsigned long nbytes);
+void *env_memmove__pv_pcv_ul (void *dst, const void *src, unsigned long nbytes);
+void env_elem_end_lifetime (Elem *p);
+void env_elem_end_lifetime_range (Elem *first, Elem *last);
+
 /* libstdc++ algorithms on element ranges (summaries) */
 Elem *env_copy__pcE_pcE_pE (const Elem *first, const Elem *last, Elem *d);
 Elem *env_copy__pE_pE_pE (Elem *first, Elem *last, Elem *d);
